@@ -4,6 +4,7 @@ mod gen_enc;
 mod gen_geom;
 mod gen_rs;
 mod gen_sym;
+mod replay;
 mod strings;
 mod util;
 
@@ -66,6 +67,9 @@ fn main() {
                 out.put(&gen_geom::shape_case(i + 1, c, seed));
             }
             out.flush();
+        }
+        ("replay", "c04") => {
+            replay::c04(&arg(&args, "--in", ""), &out_path);
         }
         ("gen", "sym") => {
             let mut out = Out::create(&out_path, start > 0);
